@@ -174,7 +174,11 @@ class MomentRecursionAnyL:
         Ka, Kb = shape["K"]
         A, B, Cm = M.vec("A", 3), M.vec("B", 3), M.vec("C", 3)
         ea, eb = M.vec("a", Ka, "pos"), M.vec("b", Kb, "pos")
-        out = mod._compute_multipole_moment_integrals_intermediate(Cm, nk, A, na, ea, B, nb, eb)
+        try:
+            out = mod._compute_multipole_moment_integrals_intermediate(Cm, nk, A, na, ea, B, nb, eb)
+        except Exception as e:  # noqa
+            M.true(M.wanted or "anyL/native-table-equals-closed-form", False, "extents (n_k, n_b, n_a) = (%d, %d, %d): the native function raised %s: %s" % (nk, nb, na, type(e).__name__, e))
+            return
         sA, sB, sC, sa, sb = map(M.to_spec, (A, B, Cm, ea, eb))
         worst, where = 0.0, None
         for pa in range(Ka):
@@ -284,7 +288,11 @@ class DiffRecursionAnyL:
         Ka, Kb = shape["K"]
         A, B = M.vec("A", 3), M.vec("B", 3)
         ea, eb = M.vec("a", Ka, "pos"), M.vec("b", Kb, "pos")
-        out = mod._compute_differential_operator_integrals_intermediate(nd, A, na, ea, B, nb, eb)
+        try:
+            out = mod._compute_differential_operator_integrals_intermediate(nd, A, na, ea, B, nb, eb)
+        except Exception as e:  # noqa
+            M.true(M.wanted or "anyLdiff/native-table-equals-closed-form", False, "extents (n_d, n_b, n_a) = (%d, %d, %d): the native function raised %s: %s" % (nd, nb, na, type(e).__name__, e))
+            return
         sA, sB, sa, sb = map(M.to_spec, (A, B, ea, eb))
         worst, where = 0.0, None
         ok_shape = tuple(out.shape) == (nd + 1, nb + 1, na + 1, 3, Kb, Ka)
@@ -412,6 +420,11 @@ class OneElecVerticalAnyL:
         wanted, M.wanted = M.wanted, None
         try:
             OneElecKernel().run(dict(la=la, lb=lb, K=[1, 1], M=[1, 1], N=1), M)
+        except Exception as e:  # noqa - the unmodified code raises on a legal input: that IS the failing input
+            M.wanted = wanted
+            del M.results[before:]
+            M.true(M.wanted or "anyLcoul/native-kernel-equals-specification", False, "l_a = %d, l_b = %d: the native kernel raised %s: %s" % (la, lb, type(e).__name__, e))
+            return
         finally:
             M.wanted = wanted
         new = M.results[before:]
